@@ -551,7 +551,7 @@ class C09Monitor(histrun.Monitor):
                 if bad:
                     self.viol(w, f"{where}/git-status-dirty/{bad[0][:2].strip() or 'x'}", f"{p}: git status --porcelain reports {bad!r}")
             self.nfsck += 1
-            if head is not None and (full or self.nfsck % 4 == 0):
+            if head is not None and (full or self.nfsck % 4 == 0 or any(st.op.startswith(("ctl:", "put_reserved")) for st in steps)):
                 rc, out, err = self.git(w, p, "fsck", "--strict", "--no-dangling")
                 res.count("fsck_runs")
                 if rc != 0:
